@@ -33,6 +33,10 @@ pub open spec fn clt<A>(x: SMap<A, u64>, y: SMap<A, u64>) -> bool { x != y && vl
 
 impl<V, A: Ord> MVReg<V, A> {
     pub closed spec fn vs(&self) -> Seq<(VClock<A>, V)> { self.vals@ }
+    /// basic invariant kept by every operation incl. reset_remove: contexts are non-empty and store no zero
+    pub open spec fn basic(&self) -> bool {
+        forall|i: int| 0 <= i < self.vs().len() ==> nz((#[trigger] self.vs()[i]).0@) && self.vs()[i].0@ != SMap::<A, u64>::empty()
+    }
     /// representation invariant: contexts are non-empty, store no zero, and form an antichain
     /// (pairwise concurrent) -- so `read` shows exactly the causally maximal writes
     pub open spec fn wf(&self) -> bool {
@@ -160,10 +164,19 @@ pub proof fn lemma_filter_len0<T>(s: Seq<T>, p: spec_fn(T) -> bool)
     }
 }
 
+/// exact effect of MVReg::merge: the undominated values of both sides, a value held by both (same context) once
+pub open spec fn merge_post_mv<V, A: Ord>(old_: MVReg<V, A>, other: MVReg<V, A>, new_: MVReg<V, A>) -> bool {
+    &&& ({ let s1 = old_.vs().filter(undominated(other.vs()));
+           let o1 = other.vs().filter(undominated(s1)).filter(fresh_ctx(s1));
+           new_.vs() == s1 + o1 })
+    &&& (old_.wf() && other.wf() ==> new_.wf())
+}
+
 impl<V, A: Ord> CvRDT for MVReg<V, A> {
     type Validation = Infallible;
-    open spec fn cv_inv(&self) -> bool { actor_ok::<A>() && self.wf() }
+    open spec fn cv_inv(&self) -> bool { actor_ok::<A>() && self.basic() }
     open spec fn cv_pre(&self, other: &Self) -> bool { true }
+    open spec fn cv_post(old_: &Self, other: &Self, new_: &Self) -> bool { merge_post_mv(*old_, *other, *new_) }
 
 //@extract fn src/mvreg.rs "CvRDT for MVReg" validate_merge
     fn validate_merge(&self, _other: &Self) -> /*@ (r: @*/ Result<(), Self::Validation> /*@ ) @*/
@@ -175,19 +188,15 @@ impl<V, A: Ord> CvRDT for MVReg<V, A> {
 
 //@extract fn src/mvreg.rs "CvRDT for MVReg" merge
     fn merge(&mut self, other: Self)
-    //@ ensures
-    //@     // the undominated values of both sides, a value held by both (same context) once
-    //@     ({ let s1 = old(self).vs().filter(undominated(other.vs()));
-    //@        let o1 = other.vs().filter(undominated(s1)).filter(fresh_ctx(s1));
-    //@        final(self).vs() == s1 + o1 }),
+    //@ ensures merge_post_mv(*old(self), other, *final(self)),
     {
         //@ let ghost sv = self.vals@;
         //@ let ghost ov = other.vals@;
-        //@ proof { assert(old(self).wf() && other.wf()); assert(seq_wf(sv)) by { lemma_wf_seq(*old(self)); } assert(seq_wf(ov)) by { lemma_wf_seq(other); } }
+        //@ proof { assert(old(self).basic() && other.basic()); assert(seq_basic(sv)) by { assert forall|i: int| 0 <= i < sv.len() implies nz((#[trigger] sv[i]).0@) && sv[i].0@ != SMap::<A, u64>::empty() by { assert(sv[i] == old(self).vs()[i]); } } assert(seq_basic(ov)) by { assert forall|i: int| 0 <= i < ov.len() implies nz((#[trigger] ov[i]).0@) && ov[i].0@ != SMap::<A, u64>::empty() by { assert(ov[i] == other.vs()[i]); } } }
         self.vals = /*@ shim_vec_into_filter_collect( @*/ mem::take(&mut self.vals)
             /*@<*/ .into_iter()
             .filter( /*@>*/ /*@ , Ghost(undominated(ov)), @*/ /*@<*/ | /*@>*/ /*@<pa*/ (clock, _) /*@>*/ /*@<*/ | /*@>*/ /*@ |q: &(VClock<A>, V)| -> (b: bool)
-                requires actor_ok::<A>(), nz(q.0@), seq_wf(other.vals@), ov == other.vals@,
+                requires actor_ok::<A>(), nz(q.0@), seq_basic(other.vals@), ov == other.vals@,
                 ensures b == undominated(ov)(*q)
             { let $pa = q; proof { lemma_filter_len0(ov, dom_by::<V, A>(clock@)); } @*/ /*@ shim_vec_iter_filter_count(& @*/ other.vals /*@<*/ .iter().filter( /*@>*/ /*@ , Ghost(dom_by::<V, A>(clock@)), @*/ /*@<*/ | /*@>*/ /*@<pb*/ (c, _) /*@>*/ /*@<*/ | /*@>*/ /*@ |w: &&(VClock<A>, V)| -> (b2: bool)
                 requires actor_ok::<A>(), nz(w.0@), nz(clock@),
@@ -195,14 +204,14 @@ impl<V, A: Ord> CvRDT for MVReg<V, A> {
             { let $pb = w; proof { lemma_pcmp_code(clock@, c@); } @*/ clock < c /*@ } @*/ ) /*@<*/ .count() /*@>*/ == 0 /*@ } @*/ )
             /*@<*/ .collect() /*@>*/ ;
         //@ let ghost s1 = self.vals@;
-        //@ proof { lemma_filter_wf(sv, undominated(ov)); }
+        //@ proof { lemma_filter_basic(sv, undominated(ov)); }
 
         /*@ let add = shim_vec_into_filter2_collect( @*/ /*@<*/ self.vals.extend( /*@>*/
             other
                 .vals
                 /*@<*/ .into_iter()
                 .filter( /*@>*/ /*@ , Ghost(undominated(s1)), @*/ /*@<*/ | /*@>*/ /*@<pc*/ (clock, _) /*@>*/ /*@<*/ | /*@>*/ /*@ |q: &(VClock<A>, V)| -> (b: bool)
-                    requires actor_ok::<A>(), nz(q.0@), seq_wf(self.vals@), s1 == self.vals@,
+                    requires actor_ok::<A>(), nz(q.0@), seq_basic(self.vals@), s1 == self.vals@,
                     ensures b == undominated(s1)(*q)
                 { let $pc = q; proof { lemma_filter_len0(s1, dom_by::<V, A>(clock@)); } @*/ /*@ shim_vec_iter_filter_count(& @*/ self.vals /*@<*/ .iter().filter( /*@>*/ /*@ , Ghost(dom_by::<V, A>(clock@)), @*/ /*@<*/ | /*@>*/ /*@<pd*/ (c, _) /*@>*/ /*@<*/ | /*@>*/ /*@ |w: &&(VClock<A>, V)| -> (b2: bool)
                     requires actor_ok::<A>(), nz(w.0@), nz(clock@),
@@ -218,7 +227,7 @@ impl<V, A: Ord> CvRDT for MVReg<V, A> {
                 /*@<*/ .collect::<Vec<_>>(), /*@>*/
         /*@<*/ ) /*@>*/ ;
         //@ shim_vec_extend(&mut self.vals, add);
-        //@ proof { lemma_merge_wf(sv, ov, s1, add@, self.vals@); lemma_seq_wf(*self); }
+        //@ proof { lemma_filter_basic(ov, undominated(s1)); lemma_filter_basic(ov.filter(undominated(s1)), fresh_ctx(s1)); assert(self.basic()) by { assert forall|i: int| 0 <= i < self.vs().len() implies nz((#[trigger] self.vs()[i]).0@) && self.vs()[i].0@ != SMap::<A, u64>::empty() by { assert(self.vs()[i] == self.vals@[i]); if i < s1.len() { assert(self.vals@[i] == s1[i]); } else { assert(self.vals@[i] == add@[i - s1.len()]); } } } if old(self).wf() && other.wf() { lemma_wf_seq(*old(self)); lemma_wf_seq(other); lemma_merge_wf(sv, ov, s1, add@, self.vals@); lemma_seq_wf(*self); } }
     }
 //@end
 }
@@ -263,9 +272,8 @@ pub proof fn lemma_rr_rel<V, A: Ord>(src: Seq<(VClock<A>, V)>, outs: Seq<Option<
 }
 
 impl<V, A: Ord> ResetRemove<A> for MVReg<V, A> {
-    open spec fn rr_inv(&self) -> bool {
-        actor_ok::<A>() && forall|i: int| 0 <= i < self.vs().len() ==> nz((#[trigger] self.vs()[i]).0@) && self.vs()[i].0@ != SMap::<A, u64>::empty()
-    }
+    open spec fn rr_inv(&self) -> bool { actor_ok::<A>() && self.basic() }
+    open spec fn rr_post(old_: &Self, clock: &VClock<A>, new_: &Self) -> bool { rr_rel(old_.vs(), clock@, new_.vs()) }
 
 //@extract fn src/mvreg.rs "ResetRemove for MVReg" reset_remove
     fn reset_remove(&mut self, clock: &VClock<A>)
@@ -295,11 +303,23 @@ impl<V, A: Ord> ResetRemove<A> for MVReg<V, A> {
 //@end
 }
 
+/// exact effect of MVReg::apply (C06): a write replaces exactly the values whose context it covers; it is shown
+/// unless an applied write has already superseded it; nothing else changes (equal values are never merged);
+/// the pairwise-concurrent invariant is kept
+pub open spec fn apply_post_mv<V, A: Ord>(old_: MVReg<V, A>, op: Op<V, A>, new_: MVReg<V, A>) -> bool {
+    &&& op->clock@ == SMap::<A, u64>::empty() ==> new_.vs() == old_.vs()
+    &&& op->clock@ != SMap::<A, u64>::empty() ==> ({
+            let kept = old_.vs().filter(keep_put::<V, A>(op->clock@));
+            new_.vs() == (if put_adds(kept, op->clock@) { kept.push((op->clock, op->val)) } else { kept }) })
+    &&& (old_.wf() ==> new_.wf())
+}
+
 impl<V, A: Ord> CmRDT for MVReg<V, A> {
     type Op = Op<V, A>;
     type Validation = Infallible;
-    open spec fn cm_inv(&self) -> bool { actor_ok::<A>() && self.wf() }
+    open spec fn cm_inv(&self) -> bool { actor_ok::<A>() && self.basic() }
     open spec fn cm_pre(&self, op: &Op<V, A>) -> bool { nz(op->clock@) }
+    open spec fn cm_post(old_: &Self, op: &Op<V, A>, new_: &Self) -> bool { apply_post_mv(*old_, *op, *new_) }
 
 //@extract fn src/mvreg.rs "CmRDT for MVReg" validate_op
     fn validate_op(&self, _op: &Self::Op) -> /*@ (r: @*/ Result<(), Self::Validation> /*@ ) @*/
@@ -311,13 +331,7 @@ impl<V, A: Ord> CmRDT for MVReg<V, A> {
 
 //@extract fn src/mvreg.rs "CmRDT for MVReg" apply
     fn apply(&mut self, op: Self::Op)
-    //@ ensures
-    //@     // C06: a write replaces exactly the values whose context it covers; it is shown unless an
-    //@     // applied write has already superseded it; nothing else changes (equal values are not merged)
-    //@     op->clock@ == SMap::<A, u64>::empty() ==> final(self).vs() == old(self).vs(),
-    //@     op->clock@ != SMap::<A, u64>::empty() ==> ({
-    //@         let kept = old(self).vs().filter(keep_put::<V, A>(op->clock@));
-    //@         final(self).vs() == (if put_adds(kept, op->clock@) { kept.push((op->clock, op->val)) } else { kept }) }),
+    //@ ensures apply_post_mv(*old(self), op, *final(self)),
     {
         match op {
             Op::Put { clock, val } => {
@@ -327,7 +341,7 @@ impl<V, A: Ord> CmRDT for MVReg<V, A> {
                 // first filter out all values that are dominated by the Op clock
                 //@ let ghost pr = keep_put::<V, A>(clock@);
                 //@ let ghost v0 = self.vals@;
-                //@ proof { assert(old(self).wf()); assert forall|i: int| 0 <= i < v0.len() implies nz((#[trigger] v0[i]).0@) by { assert(v0[i] == old(self).vs()[i]); } }
+                //@ proof { assert(old(self).basic()); assert forall|i: int| 0 <= i < v0.len() implies nz((#[trigger] v0[i]).0@) && v0[i].0@ != SMap::<A, u64>::empty() by { assert(v0[i] == old(self).vs()[i]); } }
                 /*@ shim_vec_retain(&mut @*/ self.vals /*@<*/ .retain( /*@>*/ /*@ , Ghost(pr), @*/ /*@<*/ | /*@>*/ /*@<pat*/ (val_clock, _) /*@>*/ /*@<*/ | /*@>*/ /*@ |p: &(VClock<A>, V)| -> (b: bool)
                     requires actor_ok::<A>(), nz(p.0@), nz(clock@)
                     ensures b == !vle(p.0@, clock@)
@@ -365,7 +379,7 @@ impl<V, A: Ord> CmRDT for MVReg<V, A> {
                 if should_add {
                     self.vals.push((clock, val));
                 }
-                //@ proof { assert(seq_wf(v0)) by { assert(old(self).wf()); assert forall|i: int, j: int| 0 <= i < v0.len() && 0 <= j < v0.len() && i != j implies incomparable::<V, A>()(#[trigger] v0[i], #[trigger] v0[j]) by { assert(v0[i] == old(self).vs()[i] && v0[j] == old(self).vs()[j]); } } lemma_put_wf(v0, kept, self.vals@, clock@); assert(seq_wf(self.vals@)); assert(self.wf()) by { assert forall|i: int, j: int| 0 <= i < self.vs().len() && 0 <= j < self.vs().len() && i != j implies !vle((#[trigger] self.vs()[i]).0@, (#[trigger] self.vs()[j]).0@) by { assert(incomparable::<V, A>()(self.vals@[i], self.vals@[j])); } } }
+                //@ proof { lemma_put_basic(v0, kept, self.vals@, clock@); assert(self.basic()) by { assert forall|i: int| 0 <= i < self.vs().len() implies nz((#[trigger] self.vs()[i]).0@) && self.vs()[i].0@ != SMap::<A, u64>::empty() by { assert(self.vs()[i] == self.vals@[i]); } } if old(self).wf() { lemma_wf_seq(*old(self)); lemma_put_wf(v0, kept, self.vals@, clock@); lemma_seq_wf(*self); } }
             }
         }
     }
@@ -385,7 +399,7 @@ impl<V, A: Ord + Clone> MVReg<V, A> {
     pub fn read(&self) -> /*@ (r: @*/ ReadCtx<Vec<V>, A> /*@ ) @*/
     where
         V: Clone,
-    //@ requires actor_ok::<A>(), clone_ok::<A>(), self.wf(),
+    //@ requires actor_ok::<A>(), clone_ok::<A>(), self.basic(),
     //@ ensures
     //@     // C06/C07: exactly one value per stored (causally maximal) write, in order; both contexts are the join of their clocks
     //@     r.val@.len() == self.vs().len(), forall|i: int| 0 <= i < self.vs().len() ==> cloned(self.vs()[i].1, #[trigger] r.val@[i]),
@@ -405,7 +419,7 @@ impl<V, A: Ord + Clone> MVReg<V, A> {
 
 //@extract fn src/mvreg.rs "MVReg" read_ctx
     pub fn read_ctx(&self) -> /*@ (r: @*/ ReadCtx<(), A> /*@ ) @*/
-    //@ requires actor_ok::<A>(), clone_ok::<A>(), self.wf(),
+    //@ requires actor_ok::<A>(), clone_ok::<A>(), self.basic(),
     //@ ensures is_clocks_join(self.vs(), r.add_clock@), r.rm_clock@ == r.add_clock@,
     {
         let clock = self.clock();
@@ -419,7 +433,7 @@ impl<V, A: Ord + Clone> MVReg<V, A> {
 
 //@extract fn src/mvreg.rs "MVReg" clock
     fn clock(&self) -> /*@ (r: @*/ VClock<A> /*@ ) @*/
-    //@ requires actor_ok::<A>(), clone_ok::<A>(), self.wf(),
+    //@ requires actor_ok::<A>(), clone_ok::<A>(), self.basic(),
     //@ ensures is_clocks_join(self.vs(), r@), nz(r@),
     {
         //@ let ghost sv = self.vals@;
@@ -510,6 +524,34 @@ pub open spec fn seq_wf<V, A: Ord>(s: Seq<(VClock<A>, V)>) -> bool {
     &&& pairwise(s, incomparable::<V, A>())
 }
 
+pub open spec fn seq_basic<V, A: Ord>(s: Seq<(VClock<A>, V)>) -> bool {
+    forall|i: int| 0 <= i < s.len() ==> nz((#[trigger] s[i]).0@) && s[i].0@ != SMap::<A, u64>::empty()
+}
+pub proof fn lemma_filter_basic<V, A: Ord>(s: Seq<(VClock<A>, V)>, p: spec_fn((VClock<A>, V)) -> bool)
+    requires seq_basic(s),
+    ensures seq_basic(s.filter(p)),
+{
+    lemma_filter_sub(s, p);
+    let f = s.filter(p);
+    assert forall|i: int| 0 <= i < f.len() implies nz((#[trigger] f[i]).0@) && f[i].0@ != SMap::<A, u64>::empty() by {
+        assert(s.contains(f[i]));
+        let j = choose|j: int| 0 <= j < s.len() && s[j] == f[i];
+        assert(nz(s[j].0@));
+    }
+}
+pub proof fn lemma_put_basic<V, A: Ord>(v0: Seq<(VClock<A>, V)>, kept: Seq<(VClock<A>, V)>, fin: Seq<(VClock<A>, V)>, c: SMap<A, u64>)
+    requires
+        seq_basic(v0), kept == v0.filter(keep_put::<V, A>(c)), nz(c), c != SMap::<A, u64>::empty(),
+        fin =~= kept || (fin.len() == kept.len() + 1 && fin.drop_last() =~= kept && fin.last().0@ == c),
+    ensures seq_basic(fin),
+{
+    lemma_filter_basic(v0, keep_put::<V, A>(c));
+    if !(fin =~= kept) {
+        assert forall|i: int| 0 <= i < fin.len() implies nz((#[trigger] fin[i]).0@) && fin[i].0@ != SMap::<A, u64>::empty() by {
+            if i < kept.len() { assert(fin[i] == fin.drop_last()[i]); } else { assert(fin[i] == fin.last()); }
+        }
+    }
+}
 pub proof fn lemma_wf_seq<V, A: Ord>(r: MVReg<V, A>)
     requires r.wf(),
     ensures seq_wf(r.vs()),
